@@ -528,6 +528,23 @@ def r11_resolvers_consult_the_same_sources(ctx):
                     val = rv.get("op", {}).get("c", {}).get("disp") if rv.get("r") == "use" else None
                     if str(val) != "true":
                         bad.append((key, st["span"]["line"]))
+    # ... and over the same transports: every configured server is registered for UDP *and* TCP — a truncated UDP answer (a large
+    # record set) is retried over TCP; with the TCP entry dropped as a "duplicate" such names resolve to nothing and are never dialled
+    protos = set()
+    for key, body in ctx.P.scan():
+        if not key.startswith("util::dns_cache::set_custom_dns_servers"):
+            continue
+        for bi in sorted(body.reachable()):
+            for st in body.blocks[bi]["stmts"]:
+                if st["s"] == "assign" and st["rv"]["r"] == "aggregate" and str(st["rv"]["kind"].get("adt", "")).endswith("Protocol") and "config" in str(st["rv"]["kind"].get("adt", "")):
+                    protos.add(st["rv"]["kind"].get("variant"))
+    if protos:
+        ctx.ob("R07.11", "dns_cache:custom-servers-are-registered-for-udp-and-tcp", {"Udp", "Tcp"} <= protos, "src/util/dns_cache.rs",
+               "each custom server gets a UDP and a TCP entry" if {"Udp", "Tcp"} <= protos else
+               "custom DNS servers are registered for %s only: an answer that does not fit a UDP datagram comes back truncated and cannot be retried over TCP, so names with large record sets resolve to "
+               "nothing and are never dialled once --dns is used" % sorted(protos))
+    else:
+        ctx.missing("R07.11", "NameServerConfig protocol entries in set_custom_dns_servers")
     ctx.floor("R07.11", "bodies of util::dns_cache examined", n, 3)
     ctx.ob("R07.11", "dns_cache:custom-resolver-honours-the-hosts-file", not bad, "src/util/dns_cache.rs:%s" % bad[0][1] if bad else "",
            "no resolver option that changes where names are looked up is altered" if not bad else
@@ -541,6 +558,7 @@ def run(ctx):
     effects.check_property(ctx, "C07")    # R07.E: no operation on shared protocol state outside the reviewed table
     from . import C17
     C17.r6_target_derivation(ctx)    # the HTTP front-end: which host:port a request names (absolute form, Host header, default ports)
+    C17.r9_host_field_name_any_case(ctx)     # the Host line is recognised by its field *name* (what precedes the colon), in any case — not by a substring that other headers contain too
     C17.r10_no_test_that_cannot_match(ctx)   # the explicit port of an authority is used: no branch that extracts it is dead by construction
     r11_resolvers_consult_the_same_sources(ctx)
     C17.r7_parsing_totality(ctx)
